@@ -37,6 +37,7 @@ import (
 	"github.com/codenotary/immudb/embedded/cache"
 	"github.com/codenotary/immudb/embedded/logger"
 	"github.com/codenotary/immudb/embedded/multierr"
+	"github.com/codenotary/immudb/embedded/verifhook"
 	"github.com/prometheus/client_golang/prometheus"
 )
 
@@ -360,6 +361,7 @@ func Open(path string, opts *Options) (*TBtree, error) {
 	if appRemove == nil {
 		appRemove = func(rootPath, subPath string) error {
 			path := filepath.Join(rootPath, subPath)
+			verifhook.FSRemoveAll(path)
 			return os.RemoveAll(path)
 		}
 	}
@@ -521,6 +523,7 @@ func discardSnapshots(path string, snapIDs []uint64, appRemove AppRemoveFunc, lo
 		}
 
 		_ = os.Remove(filepath.Join(path, tsFile))
+		verifhook.FSRemove(filepath.Join(path, tsFile))
 
 		logger.Infof("snapshot with id=%d at '%s' has been discarded, %d", snapID, path)
 	}
@@ -1403,6 +1406,7 @@ func writeTsFile(path, name string, ts uint64) error {
 			return "", err
 		}
 		defer tempFile.Close()
+		verifhook.FSCreate(tempFile.Name())
 
 		var buf [8]byte
 		binary.BigEndian.PutUint64(buf[:], ts)
@@ -1410,13 +1414,18 @@ func writeTsFile(path, name string, ts uint64) error {
 		if err != nil {
 			return "", err
 		}
+		verifhook.FSWrite(tempFile.Name(), 0, buf[:])
 
 		err = tempFile.Sync()
+		if err == nil {
+			verifhook.FSSync(tempFile.Name())
+		}
 		return tempFile.Name(), err
 	}()
 	if err != nil {
 		return err
 	}
+	verifhook.FSRename(tempFileName, filepath.Join(path, name))
 	return os.Rename(tempFileName, filepath.Join(path, name))
 }
 
